@@ -439,6 +439,7 @@ func (rs *ResourceSubscription) handleResetResource(t *Throttle) {
 	}
 
 	rs.resetting = true
+	verifNote("resetres", "name", rs.e.ResourceName, "query", rs.query, "thr", verifID(t))
 
 	// Create request
 	subj := "get." + rs.e.ResourceName
